@@ -18,9 +18,11 @@ import (
 type Value interface{}
 
 type Cell struct {
-	v   Value
-	id  int    // allocation number on this path (deterministic)
-	tag string // description for traces
+	v      Value
+	id     int    // allocation number on this path (deterministic)
+	tag    string // description for traces
+	shared bool   // reachable from the shared state when tracing started (lock-discipline checks)
+	global bool   // a package-level variable of the code under test
 }
 type StructV struct{ f []*Cell }
 type ArrayV struct {
@@ -33,9 +35,10 @@ type SliceV struct {
 }
 type StringV struct{ b []*Term }
 type MapV struct {
-	keys []Value
-	vals []*Cell
-	id   int
+	keys   []Value
+	vals   []*Cell
+	id     int
+	shared bool
 }
 type IfaceV struct {
 	t types.Type
